@@ -123,9 +123,35 @@ type G struct {
 
 func (g *G) f(name string) { g.feat[name]++ }
 
-func (g *G) intn(lo, hi int, label string) int { return rapid.IntRange(lo, hi).Draw(g.t, label) }
-func (g *G) chance(pct int, label string) bool { return rapid.IntRange(0, 99).Draw(g.t, label) < pct }
-func (g *G) pick(n int, label string) int      { return rapid.IntRange(0, n-1).Draw(g.t, label) }
+// Uniform draws an integer in [0,n) without rapid's small-value bias (rapid's
+// integer generators pick a bit length geometrically, which would turn a "2%"
+// branch into a 20% one). Built from unbiased single bits; shrinks towards 0.
+func Uniform(t *rapid.T, n int, label string) int {
+	if n <= 1 {
+		return 0
+	}
+	bits := 0
+	for (1 << bits) < n {
+		bits++
+	}
+	for try := 0; try < 64; try++ {
+		v := 0
+		for i := 0; i < bits; i++ {
+			v <<= 1
+			if rapid.Bool().Draw(t, label) {
+				v |= 1
+			}
+		}
+		if v < n {
+			return v
+		}
+	}
+	return 0
+}
+
+func (g *G) intn(lo, hi int, label string) int { return lo + Uniform(g.t, hi-lo+1, label) }
+func (g *G) chance(pct int, label string) bool { return Uniform(g.t, 100, label) < pct }
+func (g *G) pick(n int, label string) int      { return Uniform(g.t, n, label) }
 
 func (g *G) push(fnTop bool) {
 	lvl := 0
@@ -627,7 +653,7 @@ func (g *G) mapExpr(d int) Expr {
 // builtin calls only (what the optimizer folds).
 func (g *G) constExpr(k Kind, d int) Expr {
 	g.f("const-expr")
-	if g.cfg.DeepParen && g.chance(2, "deepparen") {
+	if g.cfg.DeepParen && Uniform(g.t, 1000, "deepparen") < 6 {
 		n := []int{60, 64, 65, 70, 130, 257, 300}[g.pick(7, "parendepth")]
 		var e Expr = g.constExpr(k, 1)
 		for i := 0; i < n; i++ {
@@ -649,7 +675,7 @@ func (g *G) constExpr(k Kind, d int) Expr {
 		}
 		return g.scalarLit()
 	}
-	mixed := g.chance(8, "mixedtypes")
+	mixed := g.chance(3, "mixedtypes")
 	sub := func(kk Kind) Expr {
 		if mixed {
 			return g.scalarLit()
@@ -665,11 +691,11 @@ func (g *G) constExpr(k Kind, d int) Expr {
 			r := sub(KInt)
 			if op == "<<" || op == ">>" {
 				r = IntLit(int64(g.intn(0, 70, "csh")))
-				if g.cfg.Failing && g.chance(10, "cnegsh") {
+				if g.cfg.Failing && g.chance(3, "cnegsh") {
 					r = IntLit(-1)
 				}
 			}
-			if (op == "/" || op == "%") && !(g.cfg.Failing && g.chance(15, "cdiv0")) {
+			if (op == "/" || op == "%") && !(g.cfg.Failing && g.chance(4, "cdiv0")) {
 				r = IntLit(int64(g.intn(1, 9, "cdiv")))
 			}
 			return &Binary{Op: op, L: sub(KInt), R: r}
